@@ -66,7 +66,6 @@ Notation items_of := (items_of is_w is_sp).
 Notation adapt := (adapt is_w is_sp).
 Notation cached_adapt := (cached_adapt is_w is_sp).
 Notation run_history := (run_history is_w is_sp).
-Notation run_history_fixed := (run_history_fixed is_w is_sp).
 
 (* ------------------------------------------------------------------------------------------------ segments *)
 
@@ -346,19 +345,6 @@ Qed.
 
 (* ------------------------------------------------------------------------------------------------ the cache *)
 
-(* a later request may hit an entry stored by an earlier one only if it is the same statement *)
-Definition compatible (a b : ckey) : Prop :=
-  snd a = snd b -> rewrite (snd a) (fst a) = fst b -> fst a = fst b.
-
-Fixpoint no_collision (seen : list ckey) (h : list ckey) : Prop :=
-  match h with
-  | [] => True
-  | rq :: r => (forall a, In a seen -> compatible a rq) /\ no_collision (seen ++ [rq]) r
-  end.
-
-Definition cache_ok (seen : list ckey) (c : list (ckey * adapted)) : Prop :=
-  forall k v, In (k, v) c -> exists a, In a seen /\ k = (rewrite (snd a) (fst a), snd a) /\ adapt (snd a) (fst a) = Ok v.
-
 Lemma cache_get_in : forall k c v, cache_get k c = Some v -> In (k, v) c.
 Proof.
   intros k c v. induction c as [|[k' v'] c IH]; intro H; [discriminate H|]. cbn [cache_get] in H.
@@ -367,55 +353,23 @@ Proof.
   - right. apply IH. exact H.
 Qed.
 
-Lemma cache_transparent_gen : forall h seen c, cache_ok seen c -> no_collision seen h ->
+(* invariant: every entry holds what adapt_sql computes for its own key *)
+Definition cache_ok (c : list (ckey * adapted)) : Prop := forall k v, In (k, v) c -> adapt (snd k) (fst k) = Ok v.
+
+Lemma cache_transparent_gen : forall h c, cache_ok c ->
   run_history c h = map (fun rq => adapt (snd rq) (fst rq)) h.
 Proof.
-  induction h as [|rq h IH]; intros seen c Hok Hnc; [reflexivity|].
-  cbn [no_collision] in Hnc. destruct Hnc as [Hcompat Hnc].
-  cbn [C30Adapt.run_history map]. unfold C30Adapt.cached_adapt.
-  destruct (cache_get rq c) as [v|] eqn:Eg.
-  - apply cache_get_in in Eg. destruct (Hok _ _ Eg) as (a & Hin & Hk & Ha).
-    destruct rq as [sql st]. cbn [fst snd]. injection Hk as H1 H2.
-    assert (Hf : fst a = sql) by (apply (Hcompat a Hin); cbn [fst snd]; [symmetry; exact H2 | symmetry; exact H1]).
-    f_equal.
-    + rewrite H2, <- Hf. symmetry. exact Ha.
-    + apply (IH (seen ++ [(sql, st)])); [|exact Hnc].
-      intros k v' Hkv. destruct (Hok k v' Hkv) as (a' & Hin' & Hk' & Ha'). exists a'. split; [apply in_or_app; left; exact Hin'|]. split; assumption.
-  - destruct (adapt (snd rq) (fst rq)) as [v|e] eqn:Ea.
-    + f_equal. apply (IH (seen ++ [rq])); [|exact Hnc].
-      intros k v' [Hkv|Hkv].
-      * inversion Hkv; subst. exists rq. split; [apply in_or_app; right; left; reflexivity|]. split; [reflexivity|exact Ea].
-      * destruct (Hok k v' Hkv) as (a' & Hin' & Hk' & Ha'). exists a'. split; [apply in_or_app; left; exact Hin'|]. split; assumption.
-    + f_equal. apply (IH (seen ++ [rq])); [|exact Hnc].
-      intros k v' Hkv. destruct (Hok k v' Hkv) as (a' & Hin' & Hk' & Ha'). exists a'. split; [apply in_or_app; left; exact Hin'|]. split; assumption.
-Qed.
-
-Lemma cache_transparent : forall h, no_collision [] h -> run_history [] h = map (fun rq => adapt (snd rq) (fst rq)) h.
-Proof. intros h H. apply (cache_transparent_gen h [] []); [intros k v []|exact H]. Qed.
-
-(* histories in which no statement sent to a format-style provider contains % never collide *)
-Lemma no_collision_percent_free : forall h seen,
-  (forall a, In a (seen ++ h) -> is_fmt (snd a) = true -> mem_char 37 (fst a) = false) -> no_collision seen h.
-Proof.
-  induction h as [|rq h IH]; intros seen H; [exact I|]. cbn [no_collision]. split.
-  - intros a Hin Hst Hrw. unfold rewrite in Hrw. destruct (is_fmt (snd a)) eqn:E; [|exact Hrw].
-    rewrite replace_all_absent in Hrw; [exact Hrw|]. apply H; [apply in_or_app; left; exact Hin | exact E].
-  - apply IH. intros a Hin. apply H. rewrite <- app_assoc in Hin. exact Hin.
-Qed.
-
-(* the repaired cache is transparent for every history *)
-Definition cache_ok_fixed (c : list (ckey * adapted)) : Prop := forall k v, In (k, v) c -> adapt (snd k) (fst k) = Ok v.
-
-Lemma cache_fixed_transparent_gen : forall h c, cache_ok_fixed c ->
-  run_history_fixed c h = map (fun rq => adapt (snd rq) (fst rq)) h.
-Proof.
   induction h as [|rq h IH]; intros c Hok; [reflexivity|].
-  cbn [C30Adapt.run_history_fixed map]. unfold C30Adapt.cached_adapt_fixed.
+  cbn [C30Adapt.run_history map]. unfold C30Adapt.cached_adapt.
   destruct (cache_get rq c) as [v|] eqn:Eg.
   - apply cache_get_in in Eg. rewrite (Hok _ _ Eg). f_equal. apply IH. exact Hok.
   - destruct (adapt (snd rq) (fst rq)) as [v|e] eqn:Ea; f_equal; apply IH; [|exact Hok].
     intros k v' [Hkv|Hkv]; [inversion Hkv; subst; exact Ea | apply Hok; exact Hkv].
 Qed.
+
+(* cache transparency over all histories *)
+Lemma cache_transparent : forall h, run_history [] h = map (fun rq => adapt (snd rq) (fst rq)) h.
+Proof. intro h. apply cache_transparent_gen. intros k v []. Qed.
 
 End WithClasses.
 
